@@ -7,12 +7,20 @@ import c17_attr_table
 SPEC = {
     "translators": [c17_attr_table.attr_table],
     "trusted": [
-        "C17: translate/c17_attr_table.py (reads every attribute loop of duke/src/class_reader.rs into coq/C17/AttrTable.v; fails closed on any arm it cannot classify)",
-        "C17: the recording visitors of harness/src/bin/c17/rec.rs (written against duke's public visitor traits) and the projection oracle of harness/src/bin/c17/main.rs",
+        "C17: translate/c17_attr_table.py (reads every attribute loop of duke/src/class_reader.rs, skip_attributes, the Break arms and both passes over the members into coq/C17/AttrTable.v; fails closed on any arm it cannot classify)",
+        "C17: the hand-written Gallina model coq/C17/Model.v of class_reader.rs at the level of attribute framing (header, pool entry sizes, counts, name index, attribute_length, skip / read, nested Code and Record), driven by the generated tables",
+        "C17: the recording visitors of harness/src/bin/c17/rec.rs (written against duke's public visitor traits; fields and record components through duke's own tree builders) and the projection / position / replay oracles of harness/src/bin/c17/main.rs",
+        "C17: replay (ClassFile::accept) is checked on the implementation only (tree equality, event multisets for the full and for every masked visitor); no Coq model of tree/*.rs accept",
     ],
     "assumptions": [
-        "attribute bodies that the reader parses by their own grammar consume exactly attribute_length bytes on the generated inputs (class files written by javac 17 and by the harness assembler); the theorems are stated for an arbitrary grammar function g under the hypothesis that declared lengths are honest w.r.t. g",
+        "attribute bodies that the reader parses by their own grammar consume exactly attribute_length bytes (theorems: hypothesis g_resp on an arbitrary grammar function g; correspondence: g_len, and every compared stream is checked by the model to decode to structures satisfying wf_b)",
         "visitors are total: a visit_* call returns Ok (the tree builder's `only one X attribute is allowed` errors are outside the model)",
-        "field and record-component visitors cannot be written outside duke (crate-private traits): at these two levels the implementation is observed through duke's own tree builders (all interests), accept/decline only",
+        "contents of parsed attributes, instruction decoding and label creation are not modelled; that a partial visitor receives the same contents (labels up to renaming, a label may be absent where nothing delivered refers to it) is checked by the harness oracle on the implementation",
+        "field and record-component visitors cannot be written outside duke (crate-private traits): at these two levels the implementation is observed through duke's own tree builders (all interests; accept/decline only), their events as a multiset",
+        "seeking past the end of the stream is not modelled (the model answers Err); streams in the domain of the theorems never do it",
+    ],
+    "stated_not_proved": [
+        "replay : forall c v, wf c -> events (ClassFile::accept (tree (enc c)) v) == project v (events (read (enc c) v_full)) with attribute-level events as a multiset and members / instructions in order, and tree (accept (tree bs) tree_builder) = tree bs  -- no Coq model of duke/src/tree/*.rs accept(); checked on the implementation by the harness for every class and every visitor configuration (3 divergences found there were fixed in /repo: 7fcc9dd, 39dba73, 72c6a4f)",
+        "content_projection : the VALUES handed to a partial visitor equal those of the full read (the Coq events carry the raw body bytes of each delivered attribute, not the parsed values; equality of the parsed values is the harness oracle)",
     ],
 }
